@@ -235,7 +235,7 @@ class Translator:
             c = self.truth(self.eval(st.test, env, mod, depth), st.test)
             return self.exec_body(st.body if c else st.orelse, env, mod, depth)
         if isinstance(st, ast.For):
-            it = self.eval(st.iter, env, mod, depth)
+            it = self._iterable(self.eval(st.iter, env, mod, depth), st.iter, depth)
             if not isinstance(it, (list, tuple, range, dict, str)):
                 raise Unmodelled("loop over a non-constant iterable: %s" % ast.unparse(st.iter))
             for x in list(it):
@@ -384,7 +384,16 @@ class Translator:
                     out.append(self.eval(x, env, mod, depth))
             return tuple(out) if isinstance(n, ast.Tuple) else out
         if isinstance(n, ast.Dict):
-            return {_pykey(self.eval(k, env, mod, depth)): self.eval(v, env, mod, depth) for k, v in zip(n.keys, n.values)}
+            out = {}
+            for k, v in zip(n.keys, n.values):
+                if k is None:
+                    sp_ = self.eval(v, env, mod, depth)
+                    if not isinstance(sp_, dict):
+                        raise Unmodelled("** of a non-constant mapping in a dict literal: %s" % ast.unparse(v)[:60])
+                    out.update(sp_)
+                else:
+                    out[_pykey(self.eval(k, env, mod, depth))] = self.eval(v, env, mod, depth)
+            return out
         if isinstance(n, (ast.ListComp, ast.GeneratorExp)):
             return self.comprehension(n, env, mod, depth)
         if isinstance(n, ast.SetComp):
@@ -451,6 +460,12 @@ class Translator:
             return r[()]
         return r
 
+    def _iterable(self, it, node, depth):
+        """an object whose class defines __iter__ iterates over what that method returns"""
+        if isinstance(it, SelfObj) and it.cls is not None and it.cls.lookup("__iter__") is not None:
+            return self.apply(BoundMethod(it.cls.lookup("__iter__"), it), [], {}, node, depth)
+        return it
+
     def comprehension(self, n, env, mod, depth, pair=False):
         out = []
 
@@ -462,7 +477,7 @@ class Translator:
                     out.append(self.eval(n.elt, e, mod, depth))
                 return
             g = gens[0]
-            it = self.eval(g.iter, e, mod, depth)
+            it = self._iterable(self.eval(g.iter, e, mod, depth), g.iter, depth)
             if not isinstance(it, (list, tuple, range, dict, str)):
                 raise Unmodelled("comprehension over a non-constant iterable")
             for x in list(it):
@@ -493,7 +508,7 @@ class Translator:
             return self.eval(mod.toplevel_assign[name], {}, mod, depth)
         if name in ("int", "float", "len", "range", "abs", "sum", "list", "tuple", "zip", "enumerate", "min", "max",
                     "isinstance", "hasattr", "callable", "complex", "round", "pow", "print", "dict", "str", "sorted", "reversed", "bool", "type",
-                    "set", "frozenset", "any", "all", "map", "filter", "getattr"):
+                    "set", "frozenset", "any", "all", "map", "filter", "getattr", "iter", "next"):
             return Opaque("builtin." + name)
         return Opaque(name)
 
@@ -725,6 +740,26 @@ class Translator:
                 return list(obj.keys())
             if name == "values":
                 return list(obj.values())
+            if name == "update":
+                for a in args:
+                    if isinstance(a, dict):
+                        obj.update(a)
+                    elif isinstance(a, (list, tuple)):
+                        for k_, v_ in a:
+                            obj[_pykey(k_)] = v_
+                    else:
+                        raise Unmodelled("dict.update with a non-constant argument")
+                obj.update(kwargs)
+                return None
+            if name == "pop" and args:
+                k_ = _pykey(args[0])
+                if k_ in obj:
+                    return obj.pop(k_)
+                if len(args) > 1:
+                    return args[1]
+                raise Unmodelled("dict.pop of a missing key (KeyError)")
+            if name == "copy" and not args:
+                return dict(obj)
         if isinstance(obj, SuperObj):
             mro = obj.self_obj.cls.mro if obj.self_obj.cls is not None else []
             after = mro[mro.index(obj.cls) + 1:] if obj.cls in mro else []
@@ -809,9 +844,20 @@ class Translator:
                 return a0
             if is_sym(a0) and a0.is_number:
                 return str(a0)
+            if isinstance(a0, SelfObj) and isinstance(a0.attrs.get("__str__"), str):
+                return a0.attrs["__str__"]
             raise Unmodelled("str() of a symbolic value")
         if name == "print":
             return None
+        if name == "iter" and len(args) == 1:
+            a0 = self._iterable(a0, n, 0)
+            if isinstance(a0, (list, tuple, dict, range, str)):
+                return PyIter(a0)
+            raise Unmodelled("iter() of a non-constant iterable")
+        if name == "next" and len(args) == 1 and isinstance(a0, PyIter):
+            if not a0:
+                raise Unmodelled("next() on an exhausted iterator")
+            return a0.pop(0)
         if name == "getattr" and len(args) >= 2 and isinstance(args[1], str):
             if isinstance(a0, SelfObj):
                 try:
@@ -1188,6 +1234,10 @@ class PySet(list):
         k = _pykey(x)
         if k in self:
             list.remove(self, k)
+
+
+class PyIter(list):
+    """an iterator over a python-level sequence: next() consumes from the front"""
 
 
 class SuperObj:
